@@ -421,6 +421,15 @@ func c01LaneAPI(t *testing.T, r *sim.Run, faults bool) {
 	T := r.T
 	sw := sim.NewSimWriter(r)
 	n := T.Small(1, 40, "nrecords")
+	if strings.HasPrefix(r.Param, "wsweep:") {
+		f := strings.Split(r.Param, ":")
+		off, sticky := -1, 0
+		fmt.Sscan(f[1], &off)
+		fmt.Sscan(f[2], &sticky)
+		sw.ErrAtByte, sw.Sticky = off, sticky == 1
+		faults = false
+		r.Lane = "api-write-sweep"
+	}
 	if faults {
 		switch T.Intn(3, "wfault") {
 		case 0:
@@ -447,6 +456,7 @@ func c01LaneAPI(t *testing.T, r *sim.Run, faults bool) {
 	}
 	c01Compare(r, "api", h.model, got, errs, sw.Buf, failed)
 	r.StateHash = sim.HashStr(string(sw.Buf))
+	r.Info["outlen"] = fmt.Sprint(len(sw.Buf))
 	r.Nontrivial = len(h.model) >= 2 && (h.edits > 0 || len(h.olds) > 1)
 	if h.flips > 0 {
 		r.Hit("file/internal flip or SetConfig on written key")
@@ -468,7 +478,12 @@ var c01Engine = &sim.Engine{
 	Real:   []string{"benchfmt.Writer", "benchfmt.Reader", "benchfmt.Result (SetConfig, Clone, ConfigIndex)", "benchunit.Tidy", "bufio.Scanner", "benchproc.Filter (pipeline lane)"},
 	Stub:   []string{"io.Writer sink (SimWriter)", "io.Reader source (SimReader)", "pipes between pipeline stages (SimPipe)"},
 	Reimpl: []string{"cmd/benchfilter main loop (six lines) inside the filter task"},
+	Extra: c01Sweep,
 	Run: func(t *testing.T, r *sim.Run, tier string) {
+		if r.Param != "" {
+			c01LaneAPI(t, r, true)
+			return
+		}
 		switch r.T.Intn(5, "lane") {
 		case 4:
 			r.Lane = "pipeline"
@@ -663,4 +678,52 @@ func c01LanePipeline(t *testing.T, r *sim.Run) {
 	}
 	r.StateHash = sim.HashStr(fmt.Sprint(len(model), len(got), stageEdit, faulted))
 	r.Nontrivial = len(got) >= 2
+}
+
+// c01Sweep (thorough tier): for seeded API histories, a write error (short
+// write) at EVERY byte offset of the output, single-shot and sticky.
+func c01Sweep(t *testing.T, w *sim.Worker) {
+	defer func() { w.Param = "" }()
+	if w.Job.Tier != "thorough" {
+		return
+	}
+	hist, positions := 0, 0
+	complete := true
+	for k := 0; ; k++ {
+		if w.TimeUp() {
+			break
+		}
+		sc := uint64(w.Job.Worker) + uint64(k)*uint64(w.Job.NWorkers)
+		seed := sim.Mix(w.Job.Seed, "C01-sweep", sc)
+		w.Param = "wsweep:-1:0"
+		cr := w.Exec(sim.NewTape(seed), false)
+		if !w.Handle(cr, 1<<40+sc, seed) {
+			return
+		}
+		n := 0
+		fmt.Sscan(cr.Info["outlen"], &n)
+		if cr.V != nil || n == 0 || n > 20000 {
+			continue
+		}
+		tape := cr.T.Values()
+		hist++
+		for off := 0; off < n; off++ {
+			for sticky := 0; sticky < 2; sticky++ {
+				if w.TimeUp() {
+					complete = false
+					break
+				}
+				w.Param = fmt.Sprintf("wsweep:%d:%d", off, sticky)
+				r := w.Exec(sim.ReplayTape(tape), false)
+				positions++
+				w.Res.Extra["swept-write-fault-offsets"]++
+				if !w.Handle(r, 1<<41+sc*100000+uint64(2*off+sticky), seed) {
+					return
+				}
+			}
+		}
+	}
+	w.Param = ""
+	w.Res.ExtraInfo["cov_offset_sweep"] = map[string]any{"histories": hist, "positions": positions, "every_byte_offset_of_each_history": complete,
+		"note": "short write + error at every byte offset of the writer's output for seeded API histories, single-shot and sticky"}
 }
